@@ -37,6 +37,10 @@ def _run_one(prop: str, spec: dict, timeout: float) -> dict:
         env = dict(os.environ)
         env['PYTHONHASHSEED'] = str(spec.get('hashseed', 0))    # checks may vary it per shard
         env['PYTHONPATH'] = str(VERIF)
+        if os.environ.get('VERIF_REPO'):
+            # developer option (tools/par_recheck.sh): monitor another working tree of the
+            # repository instead of /repo, e.g. a scratch worktree with a seeded change
+            env['PYTHONPATH'] = f"{VERIF}{os.pathsep}{boot.REPO / 'src'}"
         env['PYTHONDONTWRITEBYTECODE'] = '1'
         env.pop('PYTHONOPTIMIZE', None)
         if spec.get('optimize'):
